@@ -239,6 +239,14 @@ package transports
 //@     assert [C11.stilloutstanding,C02.serialised] p.dataCtx.v == ctx   // the data request stays outstanding while its packets are processed: an overlapping one is refused
 //@     assert [C02.kind] isBinary ==> typeis($data, *types.BytesBuffer)
 //@     assert [C02.kindtext] !isBinary ==> typeis($data, *types.StringBuffer)
+// the data-request slot is released before any answer to a request that took it (rejections included): a request that was
+// refused must not make the next one look like an overlap
+//@   callsite (*types.HttpContext).Write#3
+//@     assert [C11.slotreleased.toolarge,C03.slotreleased.toolarge] p.dataCtx.v == nil
+//@   callsite (*types.HttpContext).Write#4
+//@     assert [C11.slotreleased.readerror,C03.slotreleased.readerror] p.dataCtx.v == nil
+//@   callsite utils.NewParameterBag#1
+//@     assert [C11.slotreleased.ok,C03.slotreleased.ok] p.dataCtx.v == nil
 
 // ---- websocket transport (C01 outbound, C02 inbound, C12 close) --------------------------------------------------
 //@ spec wsOK(w *websocket) bool = w != nil && w.Transport != nil && wscOK(w.socket)
@@ -449,13 +457,13 @@ package transports
 //@   callsite utils.NewParameterBag#1
 //@     assert [C16.ctype,C01.poll.kind]     maphas($parameters, "Content-Type") && len(mapval($parameters, "Content-Type")) == 1 && mapval($parameters, "Content-Type")[0] == (typeis(data, *types.StringBuffer) ? "text/plain; charset=UTF-8" : "application/octet-stream")
 //@   callsite respond#1
-//@     assert [C16.length.plain]     $length == ret(strconv.Itoa, 1) && arg(strconv.Itoa, 1, i) == ret(types.BufferInterface.Len, 1) && arg(types.BufferInterface.Len, 1, this) == $data
+//@     assert [C16.length.plain,C06.open.length,C01.poll.length]     $length == ret(strconv.Itoa, 1) && arg(strconv.Itoa, 1, i) == ret(types.BufferInterface.Len, 1) && arg(types.BufferInterface.Len, 1, this) == $data
 //@   callsite respond#2
-//@     assert [C16.length.small]     $length == ret(strconv.Itoa, 1) && arg(strconv.Itoa, 1, i) == ret(types.BufferInterface.Len, 2) && arg(types.BufferInterface.Len, 2, this) == $data
+//@     assert [C16.length.small,C06.open.length,C01.poll.length]     $length == ret(strconv.Itoa, 1) && arg(strconv.Itoa, 1, i) == ret(types.BufferInterface.Len, 2) && arg(types.BufferInterface.Len, 2, this) == $data
 //@   callsite respond#3
-//@     assert [C16.length.nocoding]  $length == ret(strconv.Itoa, 1) && arg(strconv.Itoa, 1, i) == ret(types.BufferInterface.Len, 2) && arg(types.BufferInterface.Len, 2, this) == $data
+//@     assert [C16.length.nocoding,C06.open.length,C01.poll.length]  $length == ret(strconv.Itoa, 1) && arg(strconv.Itoa, 1, i) == ret(types.BufferInterface.Len, 2) && arg(types.BufferInterface.Len, 2, this) == $data
 //@   callsite respond#4
-//@     assert [C16.length.compressed] $length == ret(strconv.Itoa, 1) && arg(strconv.Itoa, 1, i) == ret(types.BufferInterface.Len, 2) && arg(types.BufferInterface.Len, 2, this) == $data && $data == ret((*polling).compress, 1, 0)
+//@     assert [C16.length.compressed,C06.open.length,C01.poll.length] $length == ret(strconv.Itoa, 1) && arg(strconv.Itoa, 1, i) == ret(types.BufferInterface.Len, 2) && arg(types.BufferInterface.Len, 2, this) == $data && $data == ret((*polling).compress, 1, 0)
 
 //@ func (*polling).DoWrite.respond(data, length)
 //@   props C16, C11
